@@ -379,7 +379,50 @@ func clip(s string) string {
 	return s
 }
 
-func init() { reg("C06twin", runTwin); reg("C06akestates", runTwin); reg("C06firstuse", runTwin) }
+func init() {
+	reg("C06twin", runTwin)
+	reg("C06akestates", runTwin)
+	reg("C06firstuse", runTwin)
+	reg("C06akelossy", runTwin)
+}
+
+// TestProp_C06_AKELossy: the specification lets the side that awaits the Signature message answer a repeated
+// D-H Key by sending its Reveal Signature again; that only matters when the first copy was lost. The peer's
+// D-H Key travels twice, the Reveal Signature is lost, and a rejected or ignored key-exchange message (a replay
+// of the previous exchange, a damaged copy of the current one) reaches either side at each point in between.
+// Both worlds must come out the same: encrypted.
+func TestProp_C06_AKELossy(t *testing.T) {
+	si, sn := sim.Shard()
+	idx := 0
+	for _, v := range []int{3, 2} {
+		for starter := 0; starter < 2; starter++ {
+			// an earlier exchange with the roles swapped, so that replays of every message type towards either side exist
+			pre := []SOp{{K: "age", W: 0}, {K: "age", W: 1}, {K: "sess", W: 1 - starter}, {K: "pp", W: 0, L: 5}, {K: "age", W: 0}, {K: "age", W: 1}}
+			// query; commit to the querier; D-H Key doubled in flight; first copy delivered (Reveal Signature now in flight)
+			run := []SOp{{K: "query", W: starter}, {K: "dl", W: starter}, {K: "dl", W: 1 - starter}, {K: "dup", W: starter}, {K: "dl", W: starter}}
+			tail := []SOp{{K: "drop", W: 1 - starter}, {K: "flush"}, {K: "pp", W: 0, I: 1, L: 5}}
+			for at := len(pre) + 2; at <= len(pre)+len(run); at++ {
+				for rcv := 0; rcv < 2; rcv++ {
+					for x := 0; x < 8; x++ {
+						if !sim.Thorough() && x != 0 && x != 4 && x != 5 && x != 7 {
+							continue
+						}
+						for _, src := range []int{0, 2, 5, 8, 9, 10, 11} {
+							idx++
+							if idx%sn != si {
+								continue
+							}
+							ops := append(append(append([]SOp{}, pre...), run...), tail...)
+							sc := &TwinScript{Cfg: SessCfg{V: v, SeedA: 1740, SeedB: 1841, KeyA: 0, KeyB: 3}, Ops: ops, At: at, R: SOp{W: rcv, I: src, X: x, L: 3 + src, F: src % 5}}
+							sim.Judge(t, "C06akelossy", sc)
+						}
+					}
+				}
+			}
+		}
+	}
+	sim.MarkCompleted("C06akelossy", true)
+}
 
 // TestProp_C06_FirstUse: the rejected input is a damaged copy of the message in flight and reaches the receiver
 // before the genuine one, so it is the first thing ever to name its key pair (right after the key exchange, or
